@@ -106,6 +106,12 @@ func (p *Prog) classifyBlock(i ssa.Instruction) *BlockOp {
 				if typeKey(a.Type()) == "context.Context" {
 					op.CtxArg = a
 				}
+				// http.Client.Do(req): the context travels inside the request
+				if ex, ok := a.(*ssa.Extract); ok {
+					if rc, ok := ex.Tuple.(*ssa.Call); ok && calleeName(&rc.Call) == "net/http.NewRequestWithContext" {
+						op.CtxArg = rc.Call.Args[0]
+					}
+				}
 			}
 			return op
 		}
